@@ -252,6 +252,25 @@ def writer_rule(chk, rule='C18.R6'):
             raise AnalysisError(rule, q, f'writer left the foldable subset: {e}')
         text = ''.join(out.chunks)
         lines = text.splitlines(keepends=True)
+        # the tags of every game as written, in order: the 15 mandatory tags of an export file come first, in the order of the standard
+        import re as _re
+        MAND = ['Event', 'Site', 'Date', 'Board', 'West', 'North', 'East', 'South', 'Dealer', 'Vulnerable', 'Deal', 'Scoring', 'Declarer', 'Contract', 'Result']
+        games_txt, cur = [], []
+        for l in lines:
+            if l.strip() == '':
+                if cur:
+                    games_txt.append(cur)
+                cur = []
+            else:
+                cur.append(l)
+        if cur:
+            games_txt.append(cur)
+        for gi, gl in enumerate(games_txt):
+            tg = [m.group(1) for l in gl for m in [_re.match(r'\[\s*(\w+)\s+"', l)] if m]
+            if len(b_ := seq[gi]['names'][0] if gi < len(seq) else '') > 200:
+                continue        # a value longer than a line is folded over several lines by the writer
+            chk.require(tg[:15] == MAND, 'C18.R1', w, q, f'tags written: {tg[:15]}', f'[sequence {si + 1}, game {gi + 1}] the 15 mandatory tags are written in PBN order',
+                        f'the tags of game {gi + 1} as written are {tg[:16]}; a PBN export file starts every game with {MAND} in this order')
         too_long = [l for l in lines if len(l) > 255]
         chk.require(not too_long, rule, w, q, 'line longer than 255 characters', f'[sequence {si + 1}] every written line has at most 255 characters',
                     f'a written line has {len(too_long[0]) if too_long else 0} characters (limit 255)')
